@@ -96,7 +96,9 @@ def tlc(module, cfg, work, workers=8, env=None, timeout=900, extra=(), heap=None
     e = dict(os.environ)
     if env:
         e.update(env)
-    cmd = ["java", "-XX:+UseParallelGC"]
+    # -Xss on the command line (not only JAVA_TOOL_OPTIONS): the launcher sizes the main thread, which
+    # evaluates initial states and their invariants, from the command line
+    cmd = ["java", "-XX:+UseParallelGC", "-Xss1g"]
     if heap:
         cmd.append("-Xmx" + heap)
     cmd += ["-cp", TLA_CP, "tlc2.TLC", "-workers", str(workers), "-metadir", meta, "-cleanup", "-noGenerateSpecTE", "-config", cfg]
@@ -179,7 +181,10 @@ def run_harness(driver, scenarios, work, name, timeout=900):
 def tv(trace, module, cfgname, work, timeout=900, subst=None):
     """TLC trace validation; returns the SUMMARY record printed by the trace spec"""
     cfg = write_cfg(work, "tv-" + module, cfgname, subst=subst) if subst else os.path.join(SPEC, "mc", cfgname + ".cfg")
-    r = tlc(module, cfg, work, workers=1, env={"TRACE": trace, "JAVA_TOOL_OPTIONS": "-Xss1g -Dtlc2.tool.queue.IStateQueue=StateDeque"}, timeout=timeout, heap="6g")
+    env = {"TRACE": trace, "JAVA_TOOL_OPTIONS": "-Xss1g -Dtlc2.tool.queue.IStateQueue=StateDeque"}
+    r = tlc(module, cfg, work, workers=1, env=env, timeout=timeout, heap="6g")
+    if (r["error"] or "SUMMARY" not in r["prints"]) and r["error"] != "timeout":
+        r = tlc(module, cfg, work, workers=1, env=env, timeout=timeout, heap="6g")   # one retry (transient JVM failures)
     if r["error"] or r["violated"] or "SUMMARY" not in r["prints"]:
         raise ToolError("trace validation by %s did not complete: %s\n%s" % (module, r["error"], tail(r["out"])))
     s = r["prints"]["SUMMARY"][-1]
